@@ -20,8 +20,6 @@ NOTES = {}
 NA = {
     "C09": "RenderTree text is a function of runtime tree shape; every candidate rule is a frozen source fragment "
            "(see DESIGN.md section 4, C09); the identity-only clause for render.py is checked under C17",
-    "C15": "Walker.walk is tuple arithmetic on two runtime root paths; no pairing/ordering/ownership/agreement clause "
-           "(DESIGN.md section 4, C15); the identity-only clause for walker.py is checked under C17",
 }
 
 
